@@ -62,7 +62,7 @@ FLOORS = {
                   **{"eval:score_vs_flat_reference": 28, "eval:cv_sees_rows_in_split_order": 59},
                   # memory layouts of the 2-D gridded datasets (each array draws its layout independently)
                   **{"class:array_layout:" + k: 12 for k in W.ARRAY_LAYOUTS}, **{"class:score_array_layout:" + k: 6 for k in W.ARRAY_LAYOUTS},
-                  **{"class:layout:2d": 24, "class:layout:2d:arrays_in_different_memory_orders": 24, "class:layout:2d:mesh": 8,
+                  **{"class:splinecv:two_dimensional_grid": 2, "class:layout:2d": 24, "class:layout:2d:arrays_in_different_memory_orders": 24, "class:layout:2d:mesh": 8,
                      "class:array_layout:coordinate:other-memory-order": 38, "class:array_layout:data:other-memory-order": 24,
                      "class:array_layout:weights:other-memory-order": 13}),
     # ~40 % of the minimum over seeds 0 and 1 (the client= stream is deliberately not floored: it needs dask.distributed)
@@ -78,7 +78,7 @@ FLOORS = {
         **{"schedule:" + s: 640 for s in W.SCHEDULES},
         **{"eval:score_vs_flat_reference": 960, "eval:cv_sees_rows_in_split_order": 2290},
         **{"class:array_layout:" + k: 640 for k in W.ARRAY_LAYOUTS}, **{"class:score_array_layout:" + k: 320 for k in W.ARRAY_LAYOUTS},
-        **{"class:layout:2d": 970, "class:layout:2d:arrays_in_different_memory_orders": 930, "class:layout:2d:mesh": 390,
+        **{"class:splinecv:two_dimensional_grid": 48, "class:layout:2d": 970, "class:layout:2d:arrays_in_different_memory_orders": 930, "class:layout:2d:mesh": 390,
            "class:array_layout:coordinate:other-memory-order": 1600, "class:array_layout:data:other-memory-order": 1080,
            "class:array_layout:weights:other-memory-order": 660}),
 }
@@ -110,7 +110,7 @@ def run_case(run, tap, stream, index, rng):
             elif stream == "tts":
                 W.case_tts(run, rng, vd)
             elif stream == "splinecv":
-                W.case_splinecv(run, rng, vd)
+                W.case_splinecv(run, rng, vd, index=index)
             elif stream == "client":
                 W.case_client(run, rng, vd, index)
         finally:
